@@ -414,14 +414,32 @@ pub fn gen_programs(rec: &mut Recorder, rng: &mut StdRng, n: usize) {
         let src = join_tokens(&toks, rng);
         log.lock().unwrap().clear();
         let tree = guard(|| build_operator_tree::<DefaultNumericTypes>(&src));
-        let mode = if rng.gen_range(0..5) == 0 { "imm" } else { "mut" };
-        let r = guard(|| if mode == "imm" { eval_with_context(&src, &c) } else { eval_with_context_mut(&src, &mut c) });
+        // any of the 48 entry points: string or tree level, typed or untyped, fresh / shared / mutable context
+        use crate::entry::*;
+        let mode = match rng.gen_range(0..10) {
+            0..=5 => Mode::Mut,
+            6..=7 => Mode::Imm,
+            _ => Mode::Fresh,
+        };
+        let kind = if rng.gen_bool(0.6) { Kind::Value } else { KINDS[rng.gen_range(0..KINDS.len())] };
+        let tree_level = rng.gen_bool(0.4);
+        let r = guard(|| {
+            if tree_level {
+                match build_operator_tree::<DefaultNumericTypes>(&src) {
+                    Ok(t) => call_tree(kind, mode, &t, &mut c),
+                    Err(e) => Err(e),
+                }
+            } else {
+                call_string(kind, mode, &src, &mut c)
+            }
+        });
+        let (mode, kind_name, level) = (mode.name(), kind.name(), if tree_level { "tree" } else { "string" });
         let calls: Vec<(String, V)> = log.lock().unwrap().clone();
         let post = match project_hashmap(&c, &probe, &log) {
             Ok(p) => p,
             Err(e) => json!({"error": e}),
         };
-        let mut ev = json!({"ev": "eval", "slot": 0, "src": cps(&src), "level": "string", "ek": "value", "mode": mode,
+        let mut ev = json!({"ev": "eval", "slot": 0, "src": cps(&src), "level": level, "ek": kind_name, "mode": mode,
                             "res": res_json(&r), "post": post, "log": log_json(&calls)});
         if let Ok(Ok(t)) = &tree {
             ev["tree"] = enc_tree(&normalise(t));
@@ -772,5 +790,119 @@ pub fn gen_deep(rec: &mut Recorder, rng: &mut StdRng, _n: usize) {
             Err(_) => json!({"p": "panic", "v": enc_value(&Value::Empty), "e": no_err(), "panic": "thread died"}),
         };
         rec.emit(json!({"ev": "deep", "family": name, "len": src.chars().count(), "res": outcome}));
+    }
+}
+
+// ------------------------------------------------------------------------------------------------
+// generator "builtins": random calls of the 49 builtin functions (C10)
+// ------------------------------------------------------------------------------------------------
+const BUILTINS: [&str; 49] = [
+    "math::ln", "math::log", "math::log2", "math::log10", "math::exp", "math::exp2", "math::pow", "math::cos", "math::acos",
+    "math::cosh", "math::acosh", "math::sin", "math::asin", "math::sinh", "math::asinh", "math::tan", "math::atan", "math::tanh",
+    "math::atanh", "math::atan2", "math::sqrt", "math::cbrt", "math::hypot", "floor", "round", "ceil", "math::is_nan",
+    "math::is_finite", "math::is_infinite", "math::is_normal", "math::abs", "typeof", "min", "max", "if", "contains",
+    "contains_any", "len", "str::to_lowercase", "str::to_uppercase", "str::trim", "str::from", "str::substring", "bitand",
+    "bitor", "bitxor", "bitnot", "shl", "shr",
+];
+
+pub fn gen_builtins(rec: &mut Recorder, rng: &mut StdRng, n: usize) {
+    let fpool: Vec<f64> = (0..30).map(|_| rand_float(rng)).collect();
+    let ipool: Vec<i64> = (0..20).map(|_| rand_int(rng)).collect();
+    rec.floats.extend(fpool.iter());
+    rec.ints.extend(ipool.iter());
+    let spool: Vec<String> = (0..25).map(|_| rand_string(rng)).chain(["ÄÖü ß".to_string(), " \u{3000}x\t".to_string()]).collect();
+    rec.strings.extend(spool.iter().cloned());
+    let num = |rng: &mut StdRng| -> V {
+        if rng.gen_bool(0.5) { Value::Float(*fpool.choose(rng).unwrap()) } else { Value::Int(*ipool.choose(rng).unwrap()) }
+    };
+    let any = |rng: &mut StdRng, depth: u32| -> V {
+        fn go(rng: &mut StdRng, depth: u32, fpool: &[f64], ipool: &[i64], spool: &[String]) -> V {
+            match rng.gen_range(0..8) {
+                0..=1 => Value::Int(*ipool.choose(rng).unwrap()),
+                2 => Value::Float(*fpool.choose(rng).unwrap()),
+                3 => Value::String(spool.choose(rng).unwrap().clone()),
+                4 => Value::Boolean(rng.gen_bool(0.5)),
+                5 => Value::Empty,
+                _ if depth > 0 => Value::Tuple((0..rng.gen_range(0..4)).map(|_| go(rng, depth - 1, fpool, ipool, spool)).collect()),
+                _ => Value::Int(rng.gen_range(0..9)),
+            }
+        }
+        go(rng, depth, &fpool, &ipool, &spool)
+    };
+    let scalar = |rng: &mut StdRng| -> V {
+        match rng.gen_range(0..4) {
+            0 => Value::Int(rng.gen_range(0..5)),
+            1 => Value::String(spool.choose(rng).unwrap().clone()),
+            2 => Value::Boolean(rng.gen_bool(0.5)),
+            _ => Value::Float(*fpool.choose(rng).unwrap()),
+        }
+    };
+    for _ in 0..n {
+        let name = *BUILTINS.choose(rng).unwrap();
+        // mostly arguments of the documented shape, sometimes anything
+        let args: Vec<V> = if rng.gen_range(0..6) == 0 {
+            (0..rng.gen_range(0..4)).map(|_| any(rng, 2)).collect()
+        } else {
+            match name {
+                "math::log" | "math::pow" | "math::atan2" | "math::hypot" => vec![num(rng), num(rng)],
+                "min" | "max" => {
+                    // not claimed: NaN among the arguments; the sign of a zero result when zeros of both signs compete
+                    let mut v: Vec<V> = (0..rng.gen_range(1..5)).map(|_| num(rng)).collect();
+                    v.retain(|x| !matches!(x, Value::Float(f) if f64::is_nan(*f) || *f == 0.0));
+                    if v.is_empty() {
+                        v.push(Value::Int(1));
+                    }
+                    v
+                },
+                "if" => vec![Value::Boolean(rng.gen_bool(0.5)), any(rng, 1), any(rng, 1)],
+                "contains" => vec![Value::Tuple((0..rng.gen_range(0..4)).map(|_| scalar(rng)).collect()), scalar(rng)],
+                "contains_any" => vec![
+                    Value::Tuple((0..rng.gen_range(0..4)).map(|_| scalar(rng)).collect()),
+                    Value::Tuple((0..rng.gen_range(0..3)).map(|_| scalar(rng)).collect()),
+                ],
+                "len" => vec![if rng.gen_bool(0.5) { Value::String(spool.choose(rng).unwrap().clone()) } else { any(rng, 1) }],
+                "str::to_lowercase" | "str::to_uppercase" | "str::trim" => vec![Value::String(spool.choose(rng).unwrap().clone())],
+                "str::substring" => {
+                    let mut v = vec![Value::String(spool.choose(rng).unwrap().clone()), Value::Int(rng.gen_range(-1..9))];
+                    if rng.gen_bool(0.6) {
+                        v.push(Value::Int(rng.gen_range(-1..12)));
+                    }
+                    v
+                },
+                "bitand" | "bitor" | "bitxor" => vec![Value::Int(rand_int(rng)), Value::Int(rand_int(rng))],
+                "bitnot" => vec![Value::Int(rand_int(rng))],
+                "shl" | "shr" => vec![Value::Int(rand_int(rng)), Value::Int(rng.gen_range(0..64))],     // other amounts: not claimed
+                "typeof" | "str::from" => vec![any(rng, 2)],
+                "math::abs" => vec![if rng.gen_bool(0.5) { Value::Int(rand_int(rng)) } else { num(rng) }],
+                _ => vec![num(rng)],
+            }
+        };
+        // undocumented corners are avoided in every case
+        let open = match name {
+            "min" | "max" => args.iter().any(|x| matches!(x, Value::Float(f) if f64::is_nan(*f) || *f == 0.0) || matches!(x, Value::Tuple(_))),
+            "shl" | "shr" => !matches!(args.get(1), Some(Value::Int(k)) if (0..64).contains(k)) && args.len() == 2,
+            "contains" | "contains_any" => args.iter().any(|x| match x {
+                Value::Empty => true,
+                Value::Tuple(k) => k.iter().any(|e| matches!(e, Value::Empty)),
+                _ => false,
+            }),
+            _ => false,
+        };
+        if open {
+            continue;
+        }
+        let names = ["a", "b", "c", "d"];
+        let vars: Vec<(String, V)> = args.iter().enumerate().map(|(i, v)| (names[i].to_string(), v.clone())).collect();
+        // a single tuple-valued argument would be spread by the call: pass it through a variable as the whole argument
+        let src = format!("{name}({})", names[..args.len()].join(", "));
+        rec.emit(json!({"ev": "ctx", "slot": 0, "ctx": ctx_json(&vars, &[], false)}));
+        let mut c = HashMapContext::<DefaultNumericTypes>::new();
+        for (n, v) in &vars {
+            c.set_value(n.clone(), v.clone()).unwrap();
+        }
+        let r = guard(|| eval_with_context(&src, &c));
+        let post = json!({"nb": false, "vars": vars.iter().map(|(n, v)| json!({"n": cps(n), "v": enc_value(v)})).collect::<Vec<_>>(), "funcs": []});
+        rec.emit(json!({"ev": "eval", "slot": 0, "src": cps(&src), "level": "string", "ek": "value", "mode": "imm",
+                        "res": res_json(&r), "post": post, "log": []}));
     }
 }
